@@ -18,27 +18,58 @@ type wEdges struct {
 	OverR   int    `json:"over_r"`
 	Border  int    `json:"border"`   // border width on every side (0 = none)
 	BorderL int    `json:"border_l"` // border-left attribute (per-side form; overrides border on the left)
+	// how the lengths are spelt — the same lengths, the same Model input: "" = 20px, "bare" = 20 (a unitless number is pixels),
+	// "dot0" = 20.0px, "tab" / "2sp" / "edge" = the values of a shorthand separated by a tab / two blanks / with blanks around
+	Spell string `json:"spell,omitempty"`
+}
+
+var wSpells = []string{"bare", "dot0", "tab", "2sp", "edge"}
+
+func (e wEdges) px(v int) string {
+	switch e.Spell {
+	case "bare":
+		return fmt.Sprint(v)
+	case "dot0":
+		return fmt.Sprintf("%d.0px", v)
+	}
+	return fmt.Sprintf("%dpx", v)
 }
 
 func (e wEdges) padAttr() string {
 	s := ""
+	sep, lead, trail := " ", "", ""
+	switch e.Spell {
+	case "tab":
+		sep = "\t"
+	case "2sp":
+		sep = "  "
+	case "edge":
+		lead, trail = " ", "  "
+	}
+	join := func(vs ...int) string {
+		var p []string
+		for _, v := range vs {
+			p = append(p, e.px(v))
+		}
+		return ` padding="` + lead + strings.Join(p, sep) + trail + `"`
+	}
 	switch e.PadForm {
 	case "1":
-		s = fmt.Sprintf(` padding="%dpx"`, e.Pad[0])
+		s = join(e.Pad[0])
 	case "2":
-		s = fmt.Sprintf(` padding="%dpx %dpx"`, e.Pad[0], e.Pad[1])
+		s = join(e.Pad[0], e.Pad[1])
 	case "3":
-		s = fmt.Sprintf(` padding="%dpx %dpx %dpx"`, e.Pad[0], e.Pad[1], e.Pad[2])
+		s = join(e.Pad[0], e.Pad[1], e.Pad[2])
 	case "4":
-		s = fmt.Sprintf(` padding="%dpx %dpx %dpx %dpx"`, e.Pad[0], e.Pad[1], e.Pad[2], e.Pad[3])
+		s = join(e.Pad[0], e.Pad[1], e.Pad[2], e.Pad[3])
 	case "sides":
-		return fmt.Sprintf(` padding-left="%dpx" padding-right="%dpx"`, e.Pad[3], e.Pad[1])
+		return fmt.Sprintf(` padding-left="%s" padding-right="%s"`, e.px(e.Pad[3]), e.px(e.Pad[1])) // a single length is written without blanks around it
 	}
 	if strings.Contains(e.Over, "l") {
-		s += fmt.Sprintf(` padding-left="%dpx"`, e.OverL)
+		s += fmt.Sprintf(` padding-left="%s"`, e.px(e.OverL))
 	}
 	if strings.Contains(e.Over, "r") {
-		s += fmt.Sprintf(` padding-right="%dpx"`, e.OverR)
+		s += fmt.Sprintf(` padding-right="%s"`, e.px(e.OverR))
 	}
 	return s
 }
@@ -232,6 +263,7 @@ type wItem struct {
 type wDoc struct {
 	Body    int     `json:"body"`
 	Wrapper *wEdges `json:"wrapper,omitempty"`
+	WFull   bool    `json:"wrapper_full_width,omitempty"` // the wrapper is full-width: another outer table, the same box for its children
 	Hero    bool    `json:"hero"`
 	Sec     wEdges  `json:"sec"` // section (or hero) edges
 	Items   []wItem `json:"items,omitempty"`
@@ -246,7 +278,11 @@ func (d *wDoc) mjml() string {
 	}
 	b.WriteString(">")
 	if d.Wrapper != nil {
-		b.WriteString(`<mj-wrapper css-class="w0"` + d.Wrapper.padAttr() + d.Wrapper.borderAttr() + ">")
+		fw := ""
+		if d.WFull {
+			fw = ` full-width="full-width"`
+		}
+		b.WriteString(`<mj-wrapper css-class="w0"` + fw + d.Wrapper.padAttr() + d.Wrapper.borderAttr() + ">")
 	}
 	if d.Hero {
 		b.WriteString(`<mj-hero css-class="h0"` + d.Sec.padAttr() + ">")
@@ -337,6 +373,9 @@ func scrapeWidths(toks []htmlTok, d *wDoc) wVals {
 			switch {
 			case c == "w0" && t.name == "div":
 				v["W"] = styleVal(t, "max-width")
+			case c == "w0-outlook" && t.name == "table" && d.WFull:
+				// a full-width wrapper carries its class on the outer 100% table; its own width is that of its Outlook table
+				v["W"] = styleVal(t, "width")
 			case c == "s0" && t.name == "div":
 				v["S"] = styleVal(t, "max-width")
 			case strings.HasPrefix(c, "c") && strings.HasSuffix(c, "-outlook") && t.name == "td":
@@ -475,6 +514,9 @@ func genEdges(r *Rng, allowForms []string, pBorder int) wEdges {
 		e.OverL = []int{0, 5, 15, 35}[r.Intn(4)]
 		e.OverR = []int{0, 10, 20, 45}[r.Intn(4)]
 	}
+	if e.PadForm != "" && r.Bool(1, 5) {
+		e.Spell = r.Pick(wSpells)
+	}
 	if r.Intn(10) < pBorder {
 		e.Border = []int{1, 2, 4}[r.Intn(3)]
 	}
@@ -548,6 +590,19 @@ func widthDocs(tier string, seed int64) []*wDoc {
 				docs = append(docs, &wDoc{Body: body, Sec: plain, Items: one(e, leaf)})
 				docs = append(docs, &wDoc{Body: body, Hero: true, Sec: e, Leaves: []wLeaf{{Kind: leaf}}})
 				docs = append(docs, &wDoc{Body: body, Sec: plain, Items: []wItem{{Col: &wCol{W: wWidth{Kind: "a"}, Leaf: wLeaf{Kind: leaf, E: e}}}}})
+			}
+			// the same lengths spelt differently, in every form, on every kind of box
+			if body == 600 {
+				for _, sp := range wSpells {
+					for _, f := range wForms[1:] {
+						e := wEdges{PadForm: f, Pad: [4]int{10, 20, 30, 40}, Spell: sp}
+						docs = append(docs, &wDoc{Body: body, Sec: e, Items: one(plain, leaf)})
+						docs = append(docs, &wDoc{Body: body, Wrapper: &e, Sec: plain, Items: one(plain, leaf)})
+						docs = append(docs, &wDoc{Body: body, Sec: plain, Items: one(e, leaf)})
+						docs = append(docs, &wDoc{Body: body, Hero: true, Sec: e, Leaves: []wLeaf{{Kind: leaf}}})
+						docs = append(docs, &wDoc{Body: body, Sec: plain, Items: []wItem{{Col: &wCol{W: wWidth{Kind: "a"}, Leaf: wLeaf{Kind: leaf, E: e}}}}})
+					}
+				}
 			}
 			for _, f := range []string{"", "1", "2", "3", "4"} {
 				for _, ov := range []string{"l", "r", "lr"} {
@@ -639,6 +694,14 @@ func widthDocs(tier string, seed int64) []*wDoc {
 			docs = append(docs, &wDoc{Body: 600, Sec: plain, Items: []wItem{{Col: &wCol{W: wWidth{Kind: "a"}, E: e, Leaf: lf}}}})
 		}
 	}
+	// every feature document with a wrapper also with the wrapper full-width (the same box for its children)
+	for _, d := range append([]*wDoc{}, docs...) {
+		if d.Wrapper != nil && !d.WFull && d.Body == 600 {
+			c := *d
+			c.WFull = true
+			docs = append(docs, &c)
+		}
+	}
 	n := 400
 	if tier == "thorough" {
 		n = 20000
@@ -649,6 +712,7 @@ func widthDocs(tier string, seed int64) []*wDoc {
 		if r.Bool(1, 3) {
 			e := genEdges(r, wForms, 3)
 			d.Wrapper = &e
+			d.WFull = r.Bool(1, 3)
 		}
 		if r.Bool(1, 8) {
 			d.Hero = true
@@ -832,7 +896,7 @@ func checkWidthDoc(res *Result, drv *DriverPool, d *wDoc, html string, sample bo
 }
 
 func runC10(res *Result, tier string, seed int64, replay string) {
-	res.Rule = "width documents: body width {600,500,480,640,700} × optional wrapper × (section with 1–4 children: columns or groups of 1–3 columns; automatic / integer and fractional percentages / pixel widths | hero with images and dividers), every box with padding written in every form (absent, 1/2/3/4-value shorthand, per-side attributes alone and overriding a shorthand) and borders (all sides, border-left override); images and dividers without explicit width, with their own paddings (images also with their own border), images with an explicit width below and above what the column leaves, carousels; the column's padding / border written on the element, in an mj-class or as the mj-column default; first one feature at a time from a plain base (exhaustive list), then seeded combinations. Widths are scraped from the real output with the Lean lexer (wrapper / section max-width, Outlook td width per column and group, Outlook cells of columns inside groups, img width, divider Outlook table width) and compared (1) with the Model `Widths.impl` (driver `width`) exactly — the correspondence — and (2) with the Spec `Widths.spec` (driver `widthspec`, exact rationals): |Δ| < 1 px per rounding step, plus the sibling-sum clause. Non-trivial = padding/border/wrapper/hero/group somewhere or ≥2 columns; distinct by source"
+	res.Rule = "width documents: body width {600,500,480,640,700} × optional wrapper (boxed or full-width) × (section with 1–4 children: columns or groups of 1–3 columns; automatic / integer and fractional percentages / pixel widths | hero with images and dividers), every box with padding written in every form (absent, 1/2/3/4-value shorthand, per-side attributes alone and overriding a shorthand) and the lengths spelt in every way that means the same (20px, 20, 20.0px; values separated by a tab or two blanks, blanks around) and borders (all sides, border-left override); images and dividers without explicit width, with their own paddings (images also with their own border), images with an explicit width below and above what the column leaves, carousels; the column's padding / border written on the element, in an mj-class or as the mj-column default; first one feature at a time from a plain base (exhaustive list), then seeded combinations. Widths are scraped from the real output with the Lean lexer (wrapper / section max-width, Outlook td width per column and group, Outlook cells of columns inside groups, img width, divider Outlook table width) and compared (1) with the Model `Widths.impl` (driver `width`) exactly — the correspondence — and (2) with the Spec `Widths.spec` (driver `widthspec`, exact rationals): |Δ| < 1 px per rounding step, plus the sibling-sum clause. Non-trivial = padding/border/wrapper/hero/group somewhere or ≥2 columns; distinct by source"
 	drv, err := startDriverPool(8)
 	if err != nil {
 		res.Disagree(Violation{Sig: "driver-missing", What: err.Error()})
